@@ -46,7 +46,10 @@ def navigate(obj, path):
 
 
 def kind_of(o):
+    import enum
     import numpy as np
+    if isinstance(o, enum.Enum):
+        return None     # enum members are immutable values (and class-level singletons), not caller-mutable objects
     if isinstance(o, list):
         return "list"
     if isinstance(o, tuple):
@@ -172,6 +175,8 @@ def apply_mutation(o, kind, mut, p):
         raise ValueError("tuples are immutable")
     else:  # library object: public attribute assignment
         if mut == "set_attr":
+            if p["name"].startswith("_"):
+                raise ValueError("underscore attributes are not in the caller's catalogue")
             setattr(o, p["name"], C.rebuild(p["junk"]))
         else:
             raise ValueError(mut)
